@@ -5,18 +5,21 @@ import vlib
 
 L7 = ["g8", "rgb8", "bgr8", "rgb8p", "rgba8", "rgb16", "g1"]
 L6 = L7[:6]
-NC = {"g8": 1, "rgb8": 3, "bgr8": 3, "rgb8p": 3, "rgba8": 4, "rgb16": 3, "g1": 1}
+LB = ["g16", "argb8", "rgba8", "cmyk8", "rgb16", "rgb16p"]      # second representative list (op lines prefixed with "B")
+NC = {"g8": 1, "rgb8": 3, "bgr8": 3, "rgb8p": 3, "rgba8": 4, "rgb16": 3, "g1": 1, "g16": 1, "argb8": 4, "cmyk8": 4, "rgb16p": 3}
 CCP = ["g8", "rgb8", "bgr8", "rgba8", "rgb16"]          # destination pixel types of color_converted_view
 FILLP = ["g8", "rgb8", "bgr8", "rgba8", "rgb16", "g1"]  # value types used with fill_pixels
 GEOM = ["flipud", "fliplr", "transpose", "rot90cw", "rot90ccw", "rot180"]
 MODES = ["aa", "ka", "ac", "ca"]
+XF2_FIRST = ["flipud", "fliplr", "rot90cw", "rot90ccw", "rot180", "transpose", "sub", "subs"]   # first op of a composition (XF_GROUP 6..13)
+XF2_QUICK = ["fliplr", "rot90cw", "sub", "subs"]   # quick tier: one per kind of mapped type list / geometry change
 
 # features whose any_image_view overload is probed at build time (harness/C14/probe.cpp)
 FEATURES = {"TRANSPOSED": ["transpose"], "NTH": ["nth"], "ANYCC": ["anycc", "anyccx"]}
 
 def compat(a, b):
-    cs = lambda t: "gray" if t in ("g8", "g1") else ("rgba" if t == "rgba8" else "rgb")
-    depth = lambda t: 16 if t == "rgb16" else (1 if t == "g1" else 8)
+    cs = lambda t: "gray" if t in ("g8", "g1", "g16") else ("rgba" if t in ("rgba8", "argb8") else ("cmyk" if t == "cmyk8" else "rgb"))
+    depth = lambda t: 16 if t in ("rgb16", "rgb16p", "g16") else (1 if t == "g1" else 8)
     return cs(a) == cs(b) and depth(a) == depth(b)
 
 # ---------------------------------------------------------------- translation units
@@ -28,11 +31,11 @@ def tus(have):
         "xf3": ("xf.cpp", d("XF_GROUP=3")),
         "xf4": ("xf.cpp", d("XF_GROUP=4")),
         "xf5": ("xf.cpp", d("XF_GROUP=5") + (["HAVE_ANYCC"] if have["ANYCC"] else [])),
-        # two transformations in a row, grouped by the first one
-        "xf6": ("xf.cpp", d("XF_GROUP=6") + (["HAVE_TRANSPOSED"] if have["TRANSPOSED"] else []) + (["HAVE_NTH"] if have["NTH"] else [])),
-        "xf7": ("xf.cpp", d("XF_GROUP=7") + (["HAVE_TRANSPOSED"] if have["TRANSPOSED"] else []) + (["HAVE_NTH"] if have["NTH"] else [])),
-        "xf8": ("xf.cpp", d("XF_GROUP=8") + (["HAVE_TRANSPOSED"] if have["TRANSPOSED"] else []) + (["HAVE_NTH"] if have["NTH"] else [])),
-        "xf9": ("xf.cpp", d("XF_GROUP=9") + (["HAVE_TRANSPOSED"] if have["TRANSPOSED"] else []) + (["HAVE_NTH"] if have["NTH"] else [])),
+    }
+    # two transformations in a row: one translation unit per first transformation (each is compile-heavy)
+    extra = (["HAVE_TRANSPOSED"] if have["TRANSPOSED"] else []) + (["HAVE_NTH"] if have["NTH"] else [])
+    for k, o1 in enumerate(XF2_FIRST): t["xf2_" + o1] = ("xf.cpp", d("XF_GROUP=%d" % (6 + k)) + extra)
+    t.update({
         "copy_a": ("copy.cpp", d("BIN_MODE_MASK=3")), "copy_b": ("copy.cpp", d("BIN_MODE_MASK=12")),
         "equal_a": ("equal.cpp", d("BIN_MODE_MASK=3")), "equal_b": ("equal.cpp", d("BIN_MODE_MASK=12")),
         "ccopy_a": ("ccopy.cpp", d("CC_GROUP=1", "BIN_MODE_MASK=3")), "ccopy_b": ("ccopy.cpp", d("CC_GROUP=1", "BIN_MODE_MASK=12")),
@@ -40,18 +43,27 @@ def tus(have):
         "rs_a": ("rs.cpp", d("RS_GROUP=1", "BIN_MODE_MASK=3")), "rs_b": ("rs.cpp", d("RS_GROUP=1", "BIN_MODE_MASK=12")),
         "rsz": ("rs.cpp", d("RS_GROUP=2")),
         "un": ("un.cpp", d()), "img": ("img.cpp", d()),
-    }
+    })
+    # the same sources compiled for the second type list
+    for name in ("xf1", "xf2", "xf4", "un", "img"):
+        t["B_" + name] = (t[name][0], t[name][1] + ["C14_LIST_B"])
+    t["B_copy"] = ("copy.cpp", d("C14_LIST_B")); t["B_equal"] = ("equal.cpp", d("C14_LIST_B"))
+    t["B_ccopyx"] = ("ccopy.cpp", d("CC_GROUP=2", "C14_LIST_B"))
     return t
 
 def route(op):
     w = op.split()
+    if w[0] == "B":
+        r = route(" ".join(w[1:]))
+        if r in ("copy_a", "copy_b", "equal_a", "equal_b", "ccopyx_a", "ccopyx_b"): r = r[:-2]
+        return "B_" + r if r in ("xf1", "xf2", "xf4", "copy", "equal", "ccopyx", "un", "img") else None
     if w[0] == "xf":
         o = w[5]
         if o in ("id",) + tuple(GEOM): return "xf1"
         if o in ("sub", "sub5", "subs", "subs2", "nth"): return "xf2"
         return {"cc": "xf3", "ccx": "xf4", "anycc": "xf5", "anyccx": "xf5"}.get(o)
     if w[0] == "xf2":
-        return {"flipud": "xf6", "fliplr": "xf6", "rot90cw": "xf7", "rot90ccw": "xf7", "rot180": "xf8", "transpose": "xf8", "sub": "xf9", "subs": "xf9"}.get(w[5])
+        return "xf2_" + w[5] if w[5] in XF2_FIRST else None
     if w[0] in ("copy", "equal", "ccopy", "ccopyx", "rs"):
         return w[0] + ("_a" if w[1] in ("aa", "ka") else "_b")
     if w[0] == "rsz": return "rsz"
@@ -135,6 +147,7 @@ def gen_ops(ctx):
         for _ in range(reps):
             (w, h) = (r.range(2, hi), r.range(2, hi))
             for o1, (w1, h1) in first_ops(w, h):
+                if not th and o1.split()[0] not in XF2_QUICK: continue      # every first op in the thorough tier
                 for g in GEOM: ops.append("xf2 %s %d %d %d %s then %s" % (T, w, h, seed(), o1, g))
                 for _ in range(2):
                     o2, _d = geom(w1, h1)
@@ -198,11 +211,49 @@ def gen_ops(ctx):
             (w, h), (w2, h2) = shapes(2)
             ops.append("img recreate %s %d %d %d %d %d %s" % (T, w, h, seed(), w2, h2, how))
         ops.append("img recreate %s 3 3 %d 0 0 xy" % (T, seed())); ops.append("img recreate %s 0 0 %d 2 5 xy" % (T, seed()))
+    # ---- the second representative list: {gray16, argb8, rgba8, cmyk8, rgb16, rgb16 planar}
+    for T in LB:
+        ops.append("B xf %s 0 0 %d id" % (T, seed()))
+        for (w, h) in shapes(reps): ops.append("B xf %s %d %d %d id" % (T, w, h, seed()))
+        for g in GEOM:
+            for (w, h) in shapes(reps + 1): ops.append("B xf %s %d %d %d %s" % (T, w, h, seed(), g))
+        for ov in ("sub", "sub5"):
+            for (w, h) in shapes(reps + 1):
+                x0, y0 = r.range(0, w - 1), r.range(0, h - 1)
+                ops.append("B xf %s %d %d %d %s %d %d %d %d" % (T, w, h, seed(), ov, x0, y0, r.range(0, w - x0), r.range(0, h - y0)))
+        for ov in ("subs", "subs2"):
+            for (w, h) in shapes(reps + 1): ops.append("B xf %s %d %d %d %s %d %d" % (T, w, h, seed(), ov, r.range(1, 4), r.range(1, 4)))
+        for n in range(NC[T]):
+            for (w, h) in shapes(reps): ops.append("B xf %s %d %d %d nth %d" % (T, w, h, seed(), n))
+        for P in ("g8", "rgb8", "rgba8", "rgb16"):
+            for (w, h) in shapes(reps): ops.append("B xf %s %d %d %d ccx %s" % (T, w, h, seed(), P))
+        for T2 in LB:
+            for mode in MODES:
+                for (w, h) in shapes(reps):
+                    ops.append("B copy %s %s %s %d %d %d %d %d %d -1" % (mode, T, T2, w, h, w, h, seed(), seed()))
+                    s = seed(); kind = r.below(3)
+                    ops.append("B equal %s %s %s %d %d %d %d %d %d %d" % (mode, T, T2, w, h, w, h, s, s if kind < 2 else seed(), r.range(0, w * h - 1) if kind == 1 else -1))
+                    ops.append("B ccopyx %s %s %s %d %d %d %d %d %d -1" % (mode, T, T2, w, h, w, h, seed(), seed()))
+            (w1, h1), (w2, h2) = shapes(2)
+            ops.append("B img assign %s %s %d %d %d %d %d %d %s" % (T, T2, w1, h1, w2, h2, seed(), seed(), "any" if r.chance(1, 2) else "conc"))
+            (w, h) = shapes(1)[0]; s = seed(); kind = r.below(3)
+            ops.append("B img eq %s %s %d %d %d %d %d %d %d" % (T, T2, w, h, w, h, s, s if kind < 2 else seed(), r.range(0, w * h - 1) if kind == 1 else -1))
+            (w, h) = shapes(1)[0]
+            ops.append("B img vcopy %s %s %d %d %d" % (T, T2, w, h, seed()))
+        for P in ("g16", "argb8", "rgba8", "cmyk8", "rgb16"):
+            for (w, h) in shapes(reps):
+                ops.append("B fill %s %s %d %d %d %d %d %d %d" % (T, P, w, h, seed(), r.below(65536), r.below(65536), r.below(65536), r.below(65536)))
+        for (w, h) in shapes(reps + 1): ops.append("B foreach %s %d %d %d" % (T, w, h, seed()))
+        for (w, h) in [(0, 0)] + shapes(reps): ops.append("B img dims %s %d %d %d" % (T, w, h, seed()))
+        for (w, h) in shapes(reps + 1): ops.append("B img copy %s %d %d %d" % (T, w, h, seed()))
+        (w, h), (w2, h2) = shapes(2)
+        ops.append("B img recreate %s %d %d %d %d %d %s" % (T, w, h, seed(), w2, h2, ("xy", "pt", "al")[r.below(3)]))
     return ops
 
 def nontrivial(op):
     """more than one pixel is involved, or the op exercises the bad_cast path"""
     w = op.split()
+    if w[0] == "B": w = w[1:]
     if w[0] == "xf": return int(w[2]) * int(w[3]) >= 2 and w[5] != "id"
     if w[0] == "xf2": return True
     if w[0] in ("copy", "equal", "ccopy", "ccopyx", "rs", "rsz"): return int(w[6]) * int(w[7]) >= 2 or not compat(w[2], w[3])
@@ -215,6 +266,7 @@ ASSUME = [
     "THIN MODEL: the Lean theorems are about a small dispatch model (tags, views as affine cell maps, binary_operation_obj as a case split); "
     "which overload / alternative the C++ templates select is observed by the differential run, not proven",
     "the claim covers the enumerated type lists only: {gray8, rgb8, bgr8, rgb8 planar, rgba8, rgb16, 1-bit bit-aligned gray} (L7), "
+    "{gray16, argb8, rgba8, cmyk8, rgb16, rgb16 planar} (LB; no default colour conversion is run on it: cmyk conversions are binary64 paths of C09), "
     "the list without the bit-aligned alternative where the concrete operation on it does not compile either (nth_channel_view) or the library "
     "documents homogeneous pixels only (conversion to rgba), and {gray8, rgb8} for cross-list assignment",
     "rgb16 -> gray conversions go through float32 in the code: the model reproduces the IEEE operation sequence with Lean Float32 (partial (float)); "
@@ -244,7 +296,9 @@ def run(ctx, ops=None):
         impl, model = vlib.correspond(ctx, binary, "drv_C14", g, label=name)
         samples.append({"op": g[0][:160], "impl": impl[0][:300], "model": model[0][:300]})
         for o, a in zip(g, impl):
-            w = o.split(); k = w[0] + (":" + w[5] if w[0] in ("xf", "xf2") else (":" + w[1] if w[0] == "img" else ""))
+            w = o.split()
+            if w[0] == "B": w = w[1:]; w[0] = "B." + w[0]
+            k = w[0] + (":" + w[5] if w[0] in ("xf", "xf2") else (":" + w[1] if w[0] == "img" else ""))
             by_kind[k] = by_kind.get(k, 0) + 1
             if "err:bad_cast" in a: ctx.cov["bad_cast_observed"] = ctx.cov.get("bad_cast_observed", 0) + 1
             if "err:no-compile" in a: ctx.cov["no_compile_observed"] = ctx.cov.get("no_compile_observed", 0) + 1
@@ -260,7 +314,7 @@ def run(ctx, ops=None):
             "C14: the Lean model is thin (dispatch only); the weight of this check is the differential correspondence against the concrete operation"],
         extra={"ops_by_kind": by_kind, "translation_units": len(bins), "lifted_overloads_compiling": have,
                "bad_cast_observed": ctx.cov.get("bad_cast_observed", 0), "no_compile_observed": ctx.cov.get("no_compile_observed", 0),
-               "type_lists": {"L7": L7, "L6": L6, "LS": ["g8", "rgb8"]}},
+               "type_lists": {"L7": L7, "L6": L6, "LS": ["g8", "rgb8"], "LB": LB}},
         exhaustive=False)
 
 def replay(ctx, path):
